@@ -346,6 +346,13 @@ class Ctx:
         if isinstance(v, Ref):
             c = self.cell(v)
             if isinstance(c, HList):
+                if getattr(c, "is_array", False) and c.items is not None:
+                    # numpy: an empty array is false (deprecated), one element decides, several elements have no truth value
+                    if len(c.items) == 1:
+                        return self.truthy(c.items[0])
+                    if len(c.items) > 1:
+                        self.raise_exc("ValueError", ("The truth value of an array with more than one element is ambiguous. Use a.any() or a.all()",))
+                    return False
                 if c.items is not None:
                     return len(c.items) > 0
                 return self.branch(z3.Length(c.seq) > 0)
